@@ -50,6 +50,8 @@ type Contract struct {
 	Opaque   []string // callee names whose effects are ignored (pure/no effect on modelled state)
 	Pure     bool     // function has no effect on modelled heap (implies modifies nothing)
 	Timeout  int      // per-obligation solver time limit override (seconds)
+	Locks    int      // >0: the function may block on locks of this level or higher
+	NonBlocking []string // lock classes (Struct.field) whose acquisition in this function is assumed not to block
 	GhostMaps []string // fresh uninterpreted Int->Int maps available in the ensures clauses (per call site)
 	Ghost    []string // misc flags
 	used     bool
@@ -88,6 +90,7 @@ type ContractSet struct {
 	Errors []string
 	Trust  []string // trusted / assumed items for the evidence scan
 	LockLevels map[string]int // Held.<Struct>.<field> -> level
+	LongTerm   map[string]bool // lock classes held across calls by design: entry-held instances are outside the rank check
 	Guarded    map[string]guardDecl // H.<Struct>.<field> -> guarding lock
 }
 
@@ -97,7 +100,7 @@ type guardDecl struct {
 }
 
 func NewContractSet() *ContractSet {
-	return &ContractSet{Funcs: map[string]*Contract{}, Specs: map[string]*SpecFn{}, LockLevels: map[string]int{}, Guarded: map[string]guardDecl{}}
+	return &ContractSet{Funcs: map[string]*Contract{}, Specs: map[string]*SpecFn{}, LockLevels: map[string]int{}, LongTerm: map[string]bool{}, Guarded: map[string]guardDecl{}}
 }
 
 func (cs *ContractSet) errf(file string, line int, f string, a ...any) {
@@ -290,6 +293,14 @@ func (cs *ContractSet) ParseContractText(file, pkgPath, pkgName, text string) {
 				continue
 			}
 			cs.LockLevels[lockKeyOfDecl(pkgName+"."+f[0])] = n
+		case "longterm":
+			f := strings.Fields(rest)
+			if len(f) == 0 {
+				cs.errf(file, rl.line, "longterm Struct.field <justification>")
+				continue
+			}
+			cs.LongTerm[lockKeyOfDecl(pkgName+"."+f[0])] = true
+			cs.Trust = append(cs.Trust, fmt.Sprintf("locks of class %s held at function entry are outside the acquisition-order check: %s", f[0], strings.Join(f[1:], " ")))
 		case "guarded":
 			// guarded Struct.field by lockfield [read]
 			f := strings.Fields(rest)
@@ -298,6 +309,19 @@ func (cs *ContractSet) ParseContractText(file, pkgPath, pkgName, text string) {
 				continue
 			}
 			cs.Guarded["H."+pkgName+"."+f[0]] = guardDecl{LockField: f[2], ReadOK: len(f) > 3 && f[3] == "read"}
+		case "nonblocking":
+			if cur != nil {
+				f := strings.Fields(rest)
+				if len(f) > 0 {
+					cur.NonBlocking = append(cur.NonBlocking, pkgName+"."+f[0])
+					cs.Trust = append(cs.Trust, fmt.Sprintf("%s: acquisition of %s assumed non-blocking: %s", cur.Key, f[0], strings.Join(f[1:], " ")))
+				}
+			}
+		case "locks":
+			n, _ := strconv.Atoi(rest)
+			if cur != nil {
+				cur.Locks = n
+			}
 		case "timeout":
 			n, _ := strconv.Atoi(rest)
 			if cur != nil {
